@@ -300,10 +300,14 @@ var _ = types.Typ
 // abstract fields `keys` (and `m` for maps): Load, Store, Delete/Remove, Add, Contains, Len,
 // LoadOrStoreLazy. The library is assumed to implement a map / set (its concurrency is not modelled).
 func (e *Engine) collectionModel(st *State, fn *ssa.Function, args []Val, site ssa.Instruction, k Cont) bool {
-	if len(args) == 0 || args[0].K != kTerm {
+	if len(args) == 0 || (args[0].K != kTerm && args[0].K != kPtr) {
 		return false
 	}
 	recv := args[0]
+	if recv.K == kPtr {
+		// a collection embedded by value in a struct (&s.handlers): identified by the field's address
+		recv = term(e.asTerm(st, recv), recv.Typ)
+	}
 	keysH, keysS, keysT, ok := e.absFieldOf(recv.Typ, "keys")
 	if !ok {
 		return false
